@@ -582,6 +582,22 @@ fn write_file(schema: &Schema, batches: &[RecordBatch], opts: IpcWriteOptions, c
     w.into_inner()
 }
 
+/// documented meaning of `IpcWriteOptions::alignment`: "Write padding after memory buffers to this multiple of bytes";
+/// every block of the footer (dictionary and record batch messages) starts and ends on such a multiple
+fn check_block_alignment(bytes: &[u8], align: usize) -> CaseResult {
+    let trailer_start = bytes.len() - 10;
+    let footer_len = read_footer_length(bytes[trailer_start..].try_into().unwrap()).map_err(|e| arrow_err("file:footer-err", "read_footer_length", e))?;
+    let footer = root_as_footer(&bytes[trailer_start - footer_len..trailer_start]).map_err(|e| Fail::new("file:footer-err", format!("{e:?}")))?;
+    for (what, blocks) in [("dictionary", footer.dictionaries()), ("record batch", footer.recordBatches())] {
+        for block in blocks.iter().flatten() {
+            let (o, m, b) = (block.offset() as usize, block.metaDataLength() as usize, block.bodyLength() as usize);
+            ensure!(o % align == 0 && m % align == 0 && b % align == 0, "file:block-alignment", "{} block offset {} metadata length {} body length {} are not all multiples of the alignment {}", what, o, m, b, align);
+            ensure!(o + m + b <= trailer_start - footer_len, "file:block-range", "{} block {}+{}+{} exceeds the data section ({} bytes)", what, o, m, b, trailer_start - footer_len);
+        }
+    }
+    Ok(())
+}
+
 fn read_file_decoder(bytes: &[u8], proj: Option<Vec<usize>>, require_alignment: bool) -> Result<(Schema, Vec<RecordBatch>), ArrowError> {
     let buffer = aligned_buffer(bytes);
     let trailer_start = bytes.len() - 10;
@@ -609,9 +625,21 @@ fn read_file_decoder(bytes: &[u8], proj: Option<Vec<usize>>, require_alignment: 
     Ok((schema, out))
 }
 
-fn verify_file(c: &mut Case, bytes: &[u8], sch: &Sch, want: &[LBatch], rows: &[usize], custom: &HashMap<String, String>, wo: &WOpts) -> CaseResult {
+/// reader-side choices, drawn before the (tape hungry) data so that they do not degenerate when a tape runs out
+struct FilePlan {
+    index: u8,
+    proj: Vec<usize>,
+    dproj: Option<Vec<usize>>,
+    want_ra: bool,
+}
+fn gen_file_plan(t: &mut Tape, ncols: usize) -> FilePlan {
+    FilePlan { index: t.u8(), proj: gen_projection(t, ncols), dproj: if t.bool() { Some(gen_projection(t, ncols)) } else { None }, want_ra: !t.chance(80) }
+}
+
+fn verify_file(c: &mut Case, bytes: &[u8], sch: &Sch, want: &[LBatch], rows: &[usize], custom: &HashMap<String, String>, wo: &WOpts, plan: &FilePlan) -> CaseResult {
     let schema = sch.schema.as_ref();
     let ncols = sch.fields.len();
+    check_block_alignment(bytes, wo.align)?;
     // 1. FileReader, sequential + random access
     let mut rd = no_panic("file:open", || FileReader::try_new(Cursor::new(bytes), None))?.map_err(|e| arrow_err("file:open-err", "FileReader::try_new", e))?;
     check_schema("file:reader", rd.schema().as_ref(), schema)?;
@@ -621,7 +649,7 @@ fn verify_file(c: &mut Case, bytes: &[u8], sch: &Sch, want: &[LBatch], rows: &[u
     check_all("file:reader", &full, schema, want, rows)?;
     c.evals(1);
     if !want.is_empty() {
-        let k = c.tape.below(want.len());
+        let k = (plan.index as usize * want.len()) >> 8;
         no_panic("file:set_index", || rd.set_index(k))?.map_err(|e| arrow_err("file:set_index-err", "set_index", e))?;
         let b = no_panic("file:read-at", || rd.next())?;
         let b = match b {
@@ -634,7 +662,7 @@ fn verify_file(c: &mut Case, bytes: &[u8], sch: &Sch, want: &[LBatch], rows: &[u
         c.evals(1);
     }
     // 2. FileReaderBuilder with projection
-    let proj = gen_projection(&mut c.tape, ncols);
+    let proj = plan.proj.clone();
     let prd = no_panic("file:builder", || FileReaderBuilder::new().with_projection(proj.clone()).build(Cursor::new(bytes)))?.map_err(|e| arrow_err("file:builder-err", "FileReaderBuilder::build", e))?;
     let ps = schema.project(&proj).map_err(|e| arrow_err("file:schema-project-err", "Schema::project", e))?;
     check_schema("file:projected", prd.schema().as_ref(), &ps)?;
@@ -643,8 +671,8 @@ fn verify_file(c: &mut Case, bytes: &[u8], sch: &Sch, want: &[LBatch], rows: &[u
     c.class(format!("projection:{}", if proj.is_empty() { "empty" } else if proj.len() == ncols { "all" } else { "subset" }));
     c.evals(1);
     // 3. FileDecoder by blocks (optionally projected; require_alignment only where every buffer offset is 64-byte aligned)
-    let dproj = if c.tape.bool() { Some(gen_projection(&mut c.tape, ncols)) } else { None };
-    let ra = wo.align == 64 && wo.comp == 0 && c.tape.bool();
+    let dproj = plan.dproj.clone();
+    let ra = wo.align == 64 && wo.comp == 0 && plan.want_ra;
     let (dschema, dgot) = no_panic("file:decoder", || read_file_decoder(bytes, dproj.clone(), ra))?.map_err(|e| arrow_err(if ra { "file:decoder-err:require_alignment" } else { "file:decoder-err" }, "FileDecoder", e))?;
     check_schema("file:decoder", &dschema, schema)?;
     match &dproj {
@@ -659,14 +687,15 @@ fn verify_file(c: &mut Case, bytes: &[u8], sch: &Sch, want: &[LBatch], rows: &[u
 fn sub_file(c: &mut Case) -> CaseResult {
     let wo = gen_wopts(&mut c.tape, true);
     let ncols = c.tape.below(6);
+    let plan = gen_file_plan(&mut c.tape, ncols);
+    let custom = if c.tape.chance(48) { gen_meta(&mut c.tape) } else { HashMap::new() };
     let sch = gen_ipc_schema(c, ncols, &wo);
     let n = c.tape.below(7);
     let dict = sch.fields.iter().any(|f| has_dict(&f.ty));
     // FileWriter documents "only a single dictionary for a given field across all batches": mirrored by slicing one batch
     let shared = dict || c.tape.chance(90);
     let g = gen_batches(&mut c.tape, &sch, n, shared, &Lay::fancy())?;
-    let custom = if c.tape.chance(48) { gen_meta(&mut c.tape) } else { HashMap::new() };
-    describe(c, "ipc_file", &sch, &g, wo.json());
+    describe(c, "ipc_file", &sch, &g, json!({"opts": wo.json(), "projection": plan.proj, "decoder_projection": plan.dproj}));
     if skip_ree_empty_slice(c, &sch, &g) {
         return Ok(());
     }
@@ -682,7 +711,7 @@ fn sub_file(c: &mut Case) -> CaseResult {
     }
     let opts = wo.build()?;
     let bytes = no_panic("file:write", || write_file(&sch.schema, &g.batches, opts, &custom))?.map_err(|e| arrow_err("file:write-err", "FileWriter rejected a batch sequence inside the committed grid", e))?;
-    verify_file(c, &bytes, &sch, &g.logical, &g.rows, &custom, &wo)?;
+    verify_file(c, &bytes, &sch, &g.logical, &g.rows, &custom, &wo, &plan)?;
     if n >= 2 && g.odd_slice && (interesting_type(&sch) || wo.nondefault()) {
         c.nontrivial();
     }
@@ -742,11 +771,27 @@ fn read_stream_decoder(bytes: &[u8], chunks: &[usize], require_alignment: bool) 
     Ok((dec.schema(), out))
 }
 
-fn verify_stream(c: &mut Case, bytes: &[u8], sch: &Sch, want: &[LBatch], rows: &[usize], wo: &WOpts) -> CaseResult {
+struct StreamPlan {
+    buffered: bool,
+    proj: Vec<usize>,
+    chunked: bool,
+    chunk_picks: Vec<u8>,
+    want_ra: bool,
+    encoder: bool,
+}
+fn gen_stream_plan(t: &mut Tape, ncols: usize) -> StreamPlan {
+    let buffered = t.bool();
+    let proj = gen_projection(t, ncols);
+    let chunked = t.bool();
+    let n = 1 + t.below(4);
+    StreamPlan { buffered, proj, chunked, chunk_picks: (0..n).map(|_| t.below(8) as u8).collect(), want_ra: !t.chance(80), encoder: t.bool() }
+}
+
+fn verify_stream(c: &mut Case, bytes: &[u8], sch: &Sch, want: &[LBatch], rows: &[usize], wo: &WOpts, plan: &StreamPlan) -> CaseResult {
     let schema = sch.schema.as_ref();
     let ncols = sch.fields.len();
     // 1. StreamReader, unbuffered or buffered
-    let buffered = c.tape.bool();
+    let buffered = plan.buffered;
     let full: Vec<RecordBatch> = if buffered {
         let mut rd = no_panic("stream:open", || StreamReader::try_new_buffered(Cursor::new(bytes), None))?.map_err(|e| arrow_err("stream:open-err", "StreamReader::try_new_buffered", e))?;
         check_schema("stream:reader", rd.schema().as_ref(), schema)?;
@@ -764,7 +809,7 @@ fn verify_stream(c: &mut Case, bytes: &[u8], sch: &Sch, want: &[LBatch], rows: &
     c.class(if buffered { "reader:StreamReader-buffered" } else { "reader:StreamReader" });
     c.evals(1);
     // 2. projection
-    let proj = gen_projection(&mut c.tape, ncols);
+    let proj = plan.proj.clone();
     let prd = no_panic("stream:projected-open", || StreamReader::try_new(bytes, Some(proj.clone())))?.map_err(|e| arrow_err("stream:projected-open-err", "StreamReader::try_new(projection)", e))?;
     let ps = schema.project(&proj).map_err(|e| arrow_err("stream:schema-project-err", "Schema::project", e))?;
     check_schema("stream:projected", prd.schema().as_ref(), &ps)?;
@@ -773,9 +818,17 @@ fn verify_stream(c: &mut Case, bytes: &[u8], sch: &Sch, want: &[LBatch], rows: &
     c.class(format!("projection:{}", if proj.is_empty() { "empty" } else if proj.len() == ncols { "all" } else { "subset" }));
     c.evals(1);
     // 3. StreamDecoder
-    let chunked = c.tape.bool();
-    let chunks: Vec<usize> = if chunked { (0..1 + c.tape.below(4)).map(|_| *c.tape.pick(&[1usize, 3, 4, 7, 8, 64, 100, 1000])).collect() } else { vec![] };
-    let ra = !chunked && wo.align == 64 && wo.comp == 0 && c.tape.bool();
+    let chunked = plan.chunked;
+    // known finding `decoder-dense-union-align` (repro_decoder_union_align): the decoder turns the offsets buffer of a dense
+    // union into a ScalarBuffer<i32> without re-aligning it and panics when a message body sits at an odd address inside a
+    // pushed buffer; with such a column only chunk sizes that keep every body 8-byte aligned are generated
+    let dense = sch.fields.iter().any(|f| has_kind(&f.ty, "DenseUnion"));
+    let sizes: &[usize] = if dense && !c.strict { &[8, 24, 8, 64, 8, 64, 104, 1000] } else { &[1, 3, 4, 7, 8, 64, 100, 1000] };
+    if dense && !c.strict && chunked {
+        c.exclude("decoder-dense-union-align");
+    }
+    let chunks: Vec<usize> = if chunked { plan.chunk_picks.iter().map(|i| sizes[*i as usize]).collect() } else { vec![] };
+    let ra = !chunked && wo.align == 64 && wo.comp == 0 && plan.want_ra;
     let (ds, dgot) = no_panic("stream:decoder", || read_stream_decoder(bytes, &chunks, ra))?.map_err(|e| arrow_err(if ra { "stream:decoder-err:require_alignment" } else { "stream:decoder-err" }, "StreamDecoder", e))?;
     match ds {
         Some(s) => check_schema("stream:decoder", s.as_ref(), schema)?,
@@ -790,12 +843,13 @@ fn verify_stream(c: &mut Case, bytes: &[u8], sch: &Sch, want: &[LBatch], rows: &
 fn sub_stream(c: &mut Case) -> CaseResult {
     let wo = gen_wopts(&mut c.tape, true);
     let ncols = c.tape.below(6);
+    let plan = gen_stream_plan(&mut c.tape, ncols);
     let sch = gen_ipc_schema(c, ncols, &wo);
     let n = c.tape.below(7);
     let shared = c.tape.chance(64);
     let g = gen_batches(&mut c.tape, &sch, n, shared, &Lay::fancy())?;
-    let encoder = c.tape.bool();
-    describe(c, "ipc_stream", &sch, &g, json!({"opts": wo.json(), "encoder": encoder}));
+    let encoder = plan.encoder;
+    describe(c, "ipc_stream", &sch, &g, json!({"opts": wo.json(), "encoder": encoder, "projection": plan.proj, "chunked": plan.chunked}));
     if skip_ree_empty_slice(c, &sch, &g) {
         return Ok(());
     }
@@ -809,7 +863,7 @@ fn sub_stream(c: &mut Case) -> CaseResult {
     }
     let opts = wo.build()?;
     let bytes = no_panic("stream:write", || write_stream(&sch.schema, &g.batches, opts, encoder))?.map_err(|e| arrow_err("stream:write-err", "stream writer rejected a batch sequence inside the committed grid", e))?;
-    verify_stream(c, &bytes, &sch, &g.logical, &g.rows, &wo)?;
+    verify_stream(c, &bytes, &sch, &g.logical, &g.rows, &wo, &plan)?;
     if n >= 2 && g.odd_slice && (interesting_type(&sch) || wo.nondefault()) {
         c.nontrivial();
     }
@@ -972,7 +1026,7 @@ fn sub_flight(c: &mut Case) -> CaseResult {
     let strict = c.strict;
     let avoid = Avoid::new();
     let avoided_union = std::cell::Cell::new(0u32);
-    let avoided_fsb0 = std::cell::Cell::new(0u32);
+    let avoided_fsl0 = std::cell::Cell::new(0u32);
     let avoided_ree_slice = std::cell::Cell::new(0u32);
     let sch = {
         let pred = |t: &LType| {
@@ -988,11 +1042,12 @@ fn sub_flight(c: &mut Case) -> CaseResult {
                 avoided_ree_slice.set(avoided_ree_slice.get() + 1);
                 return false;
             }
-            // known finding `hydrate-fsb0`: hydrating Dictionary<_, FixedSizeBinary(0)> yields a column of the wrong length
-            if !strict && hydrate && t.any(&|x| matches!(x, LType::Dict { value, .. } if matches!(**value, LType::FixedBinary(0)))) {
-                avoided_fsb0.set(avoided_fsb0.get() + 1);
+            // known finding `hydrate-fsl0`: hydrating a dictionary below FixedSizeList(0) (arrow_cast::cast) loses the list length
+            if !strict && hydrate && t.any(&|x| matches!(x, LType::FixedList(_, 0)) && has_dict(x)) {
+                avoided_fsl0.set(avoided_fsl0.get() + 1);
                 return false;
             }
+
             // known finding `flight-union-nullable`: the encoder rewrites every union field as non-nullable without metadata;
             // a nested union field must be declared nullable (its children carry the nulls), so nested unions are avoided
             if !strict && nested_union(t) {
@@ -1016,8 +1071,8 @@ fn sub_flight(c: &mut Case) -> CaseResult {
     if avoided_union.get() > 0 {
         c.exclude("flight-union-nullable");
     }
-    if avoided_fsb0.get() > 0 {
-        c.exclude("hydrate-fsb0");
+    if avoided_fsl0.get() > 0 {
+        c.exclude("hydrate-fsl0");
     }
     if avoided_ree_slice.get() > 0 {
         c.exclude("ree-empty-slice");
@@ -1267,6 +1322,9 @@ const REPLACEMENT_MSG: &str = "Dictionary replacement detected";
 
 fn sub_history(c: &mut Case) -> CaseResult {
     let wo = gen_wopts(&mut c.tape, true);
+    // reader-side choices first (bits of two bytes), data afterwards
+    let rsel = c.tape.u8();
+    let chunk = *c.tape.pick(&[7usize, 1, 64, 333]);
     let t = &mut c.tape;
     let ndict = 1 + t.below(2);
     let mut cols: Vec<HCol> = (0..ndict)
@@ -1390,7 +1448,7 @@ fn sub_history(c: &mut Case) -> CaseResult {
     let bytes = no_panic("history:file:into_inner", || w.into_inner())?.map_err(|e| arrow_err("history:file:finish-err", "FileWriter::into_inner", e))?;
     let want: Vec<LBatch> = hist[..accepted].iter().map(|h| h.logical.clone()).collect();
     let rows: Vec<usize> = hist[..accepted].iter().map(|h| h.rows).collect();
-    let got: Vec<RecordBatch> = if c.tape.bool() {
+    let got: Vec<RecordBatch> = if rsel & 1 == 0 {
         let rd = no_panic("history:file:open", || FileReader::try_new(Cursor::new(&bytes), None))?.map_err(|e| arrow_err("history:file:open-err", "FileReader::try_new", e))?;
         no_panic("history:file:read", || rd.collect::<Result<Vec<_>, _>>())?.map_err(|e| arrow_err("history:file:read-err", "FileReader", e))?
     } else {
@@ -1406,11 +1464,11 @@ fn sub_history(c: &mut Case) -> CaseResult {
     for encoder in [false, true] {
         let what = if encoder { "history:encoder" } else { "history:stream" };
         let bytes = no_panic(&format!("{}:write", what), || write_stream(&schema, &batches, opts.clone(), encoder))?.map_err(|e| arrow_err(&format!("{}:rejected", what), "stream writers accept every dictionary history", e))?;
-        let got: Vec<RecordBatch> = if c.tape.bool() {
+        let got: Vec<RecordBatch> = if (rsel >> (1 + usize::from(encoder))) & 1 == 0 {
             let rd = no_panic(&format!("{}:open", what), || StreamReader::try_new(bytes.as_slice(), None))?.map_err(|e| arrow_err(&format!("{}:open-err", what), "StreamReader::try_new", e))?;
             no_panic(&format!("{}:read", what), || rd.collect::<Result<Vec<_>, _>>())?.map_err(|e| arrow_err(&format!("{}:read-err", what), "StreamReader", e))?
         } else {
-            let chunks: Vec<usize> = if c.tape.bool() { vec![*c.tape.pick(&[7usize, 1, 64, 333])] } else { vec![] };
+            let chunks: Vec<usize> = if rsel & 8 == 0 { vec![chunk] } else { vec![] };
             no_panic(&format!("{}:decoder", what), || read_stream_decoder(&bytes, &chunks, false))?.map_err(|e| arrow_err(&format!("{}:read-err", what), "StreamDecoder", e))?.1
         };
         check_all(what, &got, &schema, &want, &rows)?;
@@ -1418,7 +1476,7 @@ fn sub_history(c: &mut Case) -> CaseResult {
     }
     // ---- Flight with DictionaryHandling::Resend ("a new dictionary batch will be sent each time ...")
     let fo = WOpts { delta: false, ..wo.clone() }.build()?;
-    let cfg = FlightCfg { max: if c.tape.bool() { None } else { Some(1) }, hydrate: false, with_schema: c.tape.bool() };
+    let cfg = FlightCfg { max: if rsel & 16 == 0 { None } else { Some(1) }, hydrate: false, with_schema: rsel & 32 == 0 };
     let (_, fd) = no_panic("history:flight:encode", || flight_encode(&schema, &batches, &cfg, fo))?;
     let fd = fd.map_err(|e| Fail::new("history:flight:rejected", format!("Flight Resend rejected a dictionary history: {}", e)))?;
     let st = FlightRecordBatchStream::new_from_flight_data(flight_stream(&fd));
@@ -1676,25 +1734,49 @@ fn repro_list_union(c: &mut Case) -> CaseResult {
     Ok(())
 }
 
-/// Hydrate of Dictionary<_, FixedSizeBinary(0)>: the hydrated column has the wrong length (tape-driven: layout of the column)
-fn repro_hydrate_fsb0(c: &mut Case) -> CaseResult {
-    let ty = LType::Dict { kbits: 32, ksigned: false, value: Box::new(LType::FixedBinary(0)) };
-    let nullable = !c.tape.bool();
-    let f = LField::new("d", ty.clone(), nullable);
-    let sch = Sch { schema: schema_of(std::slice::from_ref(&f), None), fields: vec![f] };
-    let rows = 1 + c.tape.below(6);
-    let pre = c.tape.below(3);
-    let col = gen_column(&mut c.tape, &ty, nullable, rows + pre, &ValCfg::default());
-    let arr = no_panic("realise", || realise(&mut c.tape, &ty, &col, nullable, &Lay::fancy()))?.slice(pre, rows);
-    let col = col[pre..].to_vec();
-    let d = arr.to_data();
-    c.describe(json!({"sub": "repro_hydrate_fsb0", "type": ty.arrow().to_string(), "rows": rows, "values": short_vec(&col),
-        "keys_nulls": d.nulls().map(|n| n.null_count()), "dictionary_len": d.child_data()[0].len(), "dictionary_offset": d.child_data()[0].offset(), "dictionary_nulls": d.child_data()[0].nulls().map(|n| n.null_count())}));
-    let batch = RecordBatch::try_new(sch.schema.clone(), vec![arr]).map_err(|e| Fail::new("repro:harness", e.to_string()))?;
+/// StreamDecoder with the default require_alignment(false) ("will automatically allocate a new aligned buffer") panics on a
+/// dense union when the pushed buffer starts at an odd address
+fn repro_decoder_union_align(c: &mut Case) -> CaseResult {
+    let uf = UnionFields::try_new([0i8, 1], [Field::new("a", DataType::Int32, true), Field::new("b", DataType::Utf8, true)]).map_err(|e| Fail::new("repro:harness", e.to_string()))?;
+    let u = UnionArray::try_new(uf, vec![0i8, 1, 0].into(), Some(vec![0i32, 0, 1].into()), vec![Arc::new(Int32Array::from(vec![10, 20])), Arc::new(StringArray::from(vec!["x"]))]).map_err(|e| Fail::new("repro:harness", e.to_string()))?;
+    let want = no_panic("repro:extract", || extract(&u))?;
+    let schema = Arc::new(Schema::new(vec![Field::new("u", u.data_type().clone(), false)]));
+    let batch = RecordBatch::try_new(schema.clone(), vec![Arc::new(u)]).map_err(|e| Fail::new("repro:harness", e.to_string()))?;
+    c.describe(json!({"sub": "repro_decoder_union_align", "type": schema.field(0).data_type().to_string(), "input": "whole stream in one Buffer whose start is 1 byte after a 64-byte boundary"}));
+    let bytes = no_panic("decoder-union-align:write", || write_stream(&schema, std::slice::from_ref(&batch), IpcWriteOptions::default(), false))?.map_err(|e| arrow_err("decoder-union-align:write-err", "StreamWriter", e))?;
+    let mut padded = vec![0u8];
+    padded.extend_from_slice(&bytes);
+    let mut buf = aligned_buffer(&padded).slice(1);
+    let mut dec = StreamDecoder::new();
+    let got = no_panic("decoder-union-align:decode", || -> Result<Vec<RecordBatch>, ArrowError> {
+        let mut out = vec![];
+        while !buf.is_empty() {
+            if let Some(b) = dec.decode(&mut buf)? {
+                out.push(b);
+            }
+        }
+        dec.finish()?;
+        Ok(out)
+    })?
+    .map_err(|e| arrow_err("decoder-union-align:decode-err", "StreamDecoder", e))?;
+    check_all("decoder-union-align", &got, &schema, &[vec![want]], &[3])?;
+    c.evals(1);
+    Ok(())
+}
+
+/// Hydrate of FixedSizeList(0)<Dictionary>: arrow_cast::cast returns a list of the wrong length, the encoder reports Err
+fn repro_hydrate_fsl0(c: &mut Case) -> CaseResult {
+    let d: DictionaryArray<Int16Type> = Vec::<&str>::new().into_iter().collect();
+    let item = Arc::new(Field::new("item", d.data_type().clone(), true));
+    let l = FixedSizeListArray::try_new_with_length(item.clone(), 0, Arc::new(d), None, 3).map_err(|e| Fail::new("repro:harness", e.to_string()))?;
+    let schema = Arc::new(Schema::new(vec![Field::new("l", DataType::FixedSizeList(item, 0), false)]));
+    let batch = RecordBatch::try_new(schema.clone(), vec![Arc::new(l)]).map_err(|e| Fail::new("repro:harness", e.to_string()))?;
+    c.describe(json!({"sub": "repro_hydrate_fsl0", "type": schema.field(0).data_type().to_string(), "rows": 3}));
     let cfg = FlightCfg { max: None, hydrate: true, with_schema: false };
-    let (_, fd) = no_panic("hydrate-fsb0:encode", || flight_encode(&sch.schema, std::slice::from_ref(&batch), &cfg, IpcWriteOptions::default()))?;
-    let fd = fd.map_err(|e| Fail::new("hydrate-fsb0:encode-err", format!("Hydrate cannot encode Dictionary<UInt32, FixedSizeBinary(0)>: {}", e)))?;
-    verify_flight(c, &fd, &hydrate_schema(&sch.schema), &[vec![col]], &[rows], 1, true, true)?;
+    let (_, fd) = no_panic("hydrate-fsl0:encode", || flight_encode(&schema, std::slice::from_ref(&batch), &cfg, IpcWriteOptions::default()))?;
+    let fd = fd.map_err(|e| Fail::new("hydrate-fsl0:encode-err", format!("Hydrate cannot encode FixedSizeList(0)<Dictionary>: {}", e)))?;
+    let want: LBatch = vec![vec![LValue::List(vec![]); 3]];
+    verify_flight(c, &fd, &hydrate_schema(&schema), &[want], &[3], 1, true, true)?;
     Ok(())
 }
 
@@ -1758,7 +1840,7 @@ fn main() {
     .assume("known findings avoided by the generators (counted): run-end encoded columns with metadata V4; union fields declared nullable / with metadata / nested in Flight")
     .sub(Sub::new("type_grid", 0, 0, sub_type_grid).enumerate(grid_n, grid_n).require(&["outside:dictionary-of-dictionary", "kind:RunEndEncoded", "kind:DenseUnion", "kind:Dictionary"]))
     .sub(
-        Sub::new("ipc_file", 400, 12000, sub_file).tape(256, 8000).require(&[
+        Sub::new("ipc_file", 6000, 240000, sub_file).tape(768, 12000).require(&[
             "family:dictionary", "family:runend", "family:union", "family:view", "family:listview", "family:list", "family:struct", "family:map", "family:fixedlist", "family:null", "family:bool",
             "family:decimal", "family:temporal", "family:interval", "family:bytes", "family:fixedbinary", "nested:Dictionary", "cols:0", "rows:0", "batches:0", "batches:3",
             "align:8", "align:16", "align:32", "align:64", "version:V4", "version:V4-legacy", "version:V5", "compression:lz4", "compression:zstd", "dict-handling:delta",
@@ -1766,20 +1848,20 @@ fn main() {
         ]),
     )
     .sub(
-        Sub::new("ipc_stream", 400, 12000, sub_stream).tape(256, 8000).require(&[
+        Sub::new("ipc_stream", 6000, 240000, sub_stream).tape(768, 12000).require(&[
             "family:dictionary", "family:runend", "family:union", "family:view", "family:listview", "family:list", "family:struct", "family:map", "nested:Dictionary", "cols:0", "rows:0", "batches:0", "batches:3",
             "version:V4", "version:V4-legacy", "compression:lz4", "compression:zstd", "dict-handling:delta", "writer:StreamEncoder", "writer:StreamWriter",
             "reader:StreamReader", "reader:StreamReader-buffered", "reader:StreamDecoder", "reader:StreamDecoder-chunked", "reader:StreamDecoder+require_alignment", "projection:subset", "mode:independent", "mode:sliced-from-one",
         ]),
     )
     .sub(
-        Sub::new("dictionary_history", 500, 15000, sub_history).tape(128, 3000).require(&[
+        Sub::new("dictionary_history", 5000, 200000, sub_history).tape(256, 3000).require(&[
             "evolution:same-arc", "evolution:equal-new-allocation", "evolution:extended", "evolution:replaced", "evolution:shrunk", "file:accepted-delta", "file:rejected-replacement",
             "file:rejected-extension-under-resend", "keys:8-bit-near-capacity", "wrap:List", "wrap:Struct", "dict-handling:delta", "dict-handling:resend", "compression:lz4", "version:V4",
         ]),
     )
     .sub(
-        Sub::new("flight", 300, 9000, sub_flight).tape(256, 8000).require(&[
+        Sub::new("flight", 4000, 160000, sub_flight).tape(768, 12000).require(&[
             "flight:hydrate", "flight:resend", "flight:hydrated-dictionary", "flight:resent-dictionary", "max_size:1", "max_size:64", "max_size:1024", "max_size:default", "flight:with_schema",
             "flight:schema-from-first-batch", "flight:split", "decoder:flight_data_to_batches", "family:union", "family:dictionary", "family:runend", "nested:Dictionary", "cols:0",
         ]),
@@ -1787,7 +1869,8 @@ fn main() {
     .sub(Sub::new("repro_ree_v4", 0, 0, repro_ree_v4))
     .sub(Sub::new("repro_ree_empty_slice", 0, 0, repro_ree_empty_slice))
     .sub(Sub::new("repro_list_union", 0, 0, repro_list_union))
-    .sub(Sub::new("repro_hydrate_fsb0", if std::env::var("C04_DBG").is_ok() { 400 } else { 0 }, 0, repro_hydrate_fsb0).tape(64, 600))
+    .sub(Sub::new("repro_hydrate_fsl0", 0, 0, repro_hydrate_fsl0))
+    .sub(Sub::new("repro_decoder_union_align", 0, 0, repro_decoder_union_align))
     .sub(Sub::new("repro_flight_union_nullable", 0, 0, repro_flight_union_nullable))
     .sub(Sub::new("repro_flight_hydrate_union", 0, 0, repro_flight_hydrate_union))
     .run()
